@@ -2,7 +2,112 @@
 From ChibiV Require Import Common.Words C04.Model C04.Proofs.
 Local Open Scope Z_scope.
 
+(** digit layer (bignum.c:171-186, 419-507): any length, any number of spare high zero words *)
 Theorem add_digits_val : forall a b, words a -> words b -> a <> [] -> b <> [] ->
   val (add_digits a b) = val a + val b /\ words (add_digits a b).
 Proof. exact add_digits_spec. Qed.
 Print Assumptions add_digits_val.
+
+Theorem sub_digits_val : forall a b, words a -> words b -> a <> [] -> b <> [] ->
+  val (sub_digits a b) = Z.abs (val a - val b) /\ words (sub_digits a b) /\ sub_digits a b <> [].
+Proof. exact sub_digits_spec. Qed.
+Print Assumptions sub_digits_val.
+
+Theorem compare_Z : forall a b, words a -> words b -> a <> [] -> b <> [] ->
+  (compare_abs a b > 0 <-> val a > val b) /\ (compare_abs a b < 0 <-> val a < val b).
+Proof. exact compare_abs_spec. Qed.
+Print Assumptions compare_Z.
+
+Theorem bignum_add_Z : forall x y, wf_big x -> wf_big y ->
+  bval (bignum_add x y) = bval x + bval y /\ wf_big (bignum_add x y).
+Proof. exact bignum_add_spec. Qed.
+Print Assumptions bignum_add_Z.
+
+Theorem bignum_sub_Z : forall x y, wf_big x -> wf_big y ->
+  bval (bignum_sub x y) = bval x - bval y /\ wf_big (bignum_sub x y).
+Proof. exact bignum_sub_spec. Qed.
+Print Assumptions bignum_sub_Z.
+
+(** single-word operations (bignum.c:215-301); the 128-bit intermediate is modelled as Z mod 2^128 *)
+From ChibiV Require Import C04.Model2 C04.ProofsFx C04.ProofsMul.
+
+Theorem fxadd_val : forall a b, words a -> a <> [] -> isword b ->
+  val (fxadd a b) = val a + b /\ words (fxadd a b) /\ fxadd a b <> [].
+Proof. exact fxadd_spec. Qed.
+Print Assumptions fxadd_val.
+
+Theorem fxsub_val : forall s a b r c, wf_big (s, a) -> isword b -> fxsub (s, a) b = (r, c) ->
+  c = 0 /\ bval r = s * (val a - b) /\ wf_big r.
+Proof. exact fxsub_spec. Qed.
+Print Assumptions fxsub_val.
+
+Theorem fxmul_val : forall a b off, words a -> isword b ->
+  val (fxmul a b off) = val a * b * B ^ Z.of_nat off /\ words (fxmul a b off).
+Proof. exact fxmul_spec. Qed.
+Print Assumptions fxmul_val.
+
+Theorem fxdiv_val : forall a b q r, words a -> a <> [] -> 0 < b < B -> fxdiv a b 0 = (q, r) ->
+  val a = val q * b + r /\ 0 <= r < b /\ words q /\ length q = length a.
+Proof. exact fxdiv_spec. Qed.
+Print Assumptions fxdiv_val.
+
+Theorem fxrem_Z : forall s a b, wf_big (s, a) -> Z.abs b < B ->
+  fxrem (s, a) b = if b =? 0 then None else Some (Z.rem (s * val a) b).
+Proof. exact fxrem_spec. Qed.
+Print Assumptions fxrem_Z.
+
+(** value preserved, and the result is a fixnum iff the value fits *)
+Theorem normalize_canonical : forall s d, wf_big (s, d) ->
+  nval (normalize (Big s d)) = s * val d /\ canon (normalize (Big s d)) /\ wf_num (normalize (Big s d)).
+Proof. exact normalize_spec. Qed.
+Print Assumptions normalize_canonical.
+
+(** generic sexp_add / sexp_sub on fixnum|bignum: exact and canonical *)
+Theorem num_add_Z : forall a b, wf_num a -> wf_num b ->
+  nval (num_add a b) = nval a + nval b /\ canon (num_add a b) /\ wf_num (num_add a b).
+Proof. exact num_add_spec. Qed.
+Print Assumptions num_add_Z.
+
+Theorem num_sub_Z : forall a b, wf_num a -> wf_num b ->
+  (is_fix a = true -> is_fix b = true -> fits_fix (nval a - nval b) = true) ->
+  nval (num_sub a b) = nval a - nval b /\ canon (num_sub a b) /\ wf_num (num_sub a b).
+Proof. exact num_sub_spec. Qed.
+Print Assumptions num_sub_Z.
+
+(** VM fast paths (vm.c:1763-1820): exact for all operands, including the overflow hand-over *)
+Theorem fix_add_handover : forall a b, wf_num a -> wf_num b ->
+  nval (vm_add a b) = nval a + nval b /\ canon (vm_add a b) /\ wf_num (vm_add a b).
+Proof. exact vm_add_spec. Qed.
+Print Assumptions fix_add_handover.
+
+Theorem fix_sub_handover : forall a b, wf_num a -> wf_num b ->
+  nval (vm_sub a b) = nval a - nval b /\ canon (vm_sub a b) /\ wf_num (vm_sub a b).
+Proof. exact vm_sub_spec. Qed.
+Print Assumptions fix_sub_handover.
+
+(** Karatsuba (bignum.c:509-567): whenever the fuelled recursion returns, it returns the product *)
+Theorem mul_karatsuba_val : forall fuel x y r, wf_big x -> wf_big y ->
+  bignum_mul fuel x y = Some r -> bval r = bval x * bval y /\ wf_big r.
+Proof. exact bignum_mul_spec. Qed.
+Print Assumptions mul_karatsuba_val.
+
+(** quot_rem (bignum.c:569-668): total correctness minus termination.  Whenever the fuelled loop
+    finishes, quotient and remainder are exactly Z.quot / Z.rem (truncating division, remainder with
+    the sign of the dividend), for ANY quotient-digit estimate; a zero divisor is reported. *)
+From ChibiV Require Import C04.ProofsDiv.
+
+Theorem quot_rem_sound : forall fuel mf x y q r, wf_big x -> wf_big y ->
+  quot_rem fuel mf x y = QR q r ->
+  bval y <> 0 /\ nval q = Z.quot (bval x) (bval y) /\ nval r = Z.rem (bval x) (bval y).
+Proof. exact quot_rem_spec. Qed.
+Print Assumptions quot_rem_sound.
+
+Theorem quot_rem_zero_divisor : forall fuel mf x y, wf_big x -> wf_big y ->
+  (quot_rem fuel mf x y = QDivZero <-> bval y = 0).
+Proof. exact quot_rem_divzero. Qed.
+Print Assumptions quot_rem_zero_divisor.
+
+Theorem num_mul_Z : forall mf a b r, wf_num a -> wf_num b -> num_mul mf a b = Some r ->
+  nval r = nval a * nval b /\ canon r /\ wf_num r.
+Proof. exact num_mul_spec. Qed.
+Print Assumptions num_mul_Z.
